@@ -425,29 +425,31 @@ META = {
 # ------------------------------------------------------------------ C06.image: whole images with awkward sibling names through the real export
 def h_image(fmt: int, n: int, i0: int, i1: int, i2: int, i3: int, sc: int) -> int:
     """
-    pre: 0 <= fmt <= 1 and 2 <= n <= 4 and 0 <= i0 <= 27 and 0 <= i1 <= 27 and 0 <= i2 <= 27 and 0 <= i3 <= 27 and 0 <= sc <= 1
+    pre: 0 <= fmt <= 2 and 2 <= n <= 4 and 0 <= i0 <= 27 and 0 <= i1 <= 27 and 0 <= i2 <= 27 and 0 <= i3 <= 27 and 0 <= sc <= 1
     post: _ == 1
     """
     CNT[0] += 1
     from vf.util import conc, untraced
-    fmt, n, sc = conc(fmt, 0, 1), conc(n, 2, 4), conc(sc, 0, 1)
+    fmt, n, sc = conc(fmt, 0, 2), conc(n, 2, 4), conc(sc, 0, 1)
     idx = [conc(i, 0, 27) for i in (i0, i1, i2, i3)[:n]]
     with untraced():
         from vf import nameimg as N
         from vf.props import c16
-        table = N.AKAI_NAMES if fmt == 0 else N.ROLAND_NAMES
+        table = (N.AKAI_NAMES, N.ROLAND_NAMES, N.CDDA_TITLES)[fmt]
         if any(i >= len(table) for i in idx):
             return 1
         names = [table[i] for i in idx]
+        # region first (from the names alone): does a merged pair's stem meet another output name of the directory?  Known finding F7b lives
+        # there and only there; CDDA tracks are never merged, so the region is empty for fmt 2
+        if (1 if (fmt != 2 and _stem_collision_possible(names)) else 0) != sc:
+            return 1                                     # the other region's obligation owns this shape
         img, _d, prefix = N.build(fmt, names)
         _k, files, log = c16._do(N.open_image(img), ("export", None))
         lines = [ln for ln in log.split("\n") if ln.startswith("Exported ")]
-        # region: does a merged pair's stem meet another output name of the directory?  (known finding F7b lives there and only there)
-        if (1 if _stem_collision_possible(names) else 0) != sc:
-            return 1                                     # the other region's obligation owns this shape
         if len(lines) != len(files) or len(set(lines)) != len(lines):
             return 0                                     # two samples written to one path
         channels = 0
+        seen = []
         for path, wav in files:
             if not path.startswith(prefix):
                 return 0                                 # outside the destination / directory
@@ -459,7 +461,11 @@ def h_image(fmt: int, n: int, i0: int, i1: int, i2: int, i3: int, sc: int) -> in
             if any(w is None for w in who):
                 return 0                                 # a channel that is nobody's audio
             channels += ch
-        if channels != n:
+            seen += who
+        if fmt == 2:
+            if sorted(seen) != sorted(list(range(n)) * 2):
+                return 0                                 # every track is its own two-channel file
+        elif channels != n or sorted(seen) != list(range(n)):
             return 0                                     # a sample lost or written twice
     return 1
 
@@ -480,17 +486,17 @@ def _stem_collision_possible(names):
 
 
 
-def image_obligations(prefix, module, tier, dup, extra=()):
+def image_obligations(prefix, module, tier, dup, extra=(), cdda=False):
     """name-image obligations shared by C05/C06/C10: 2 siblings: every pair of name classes; 3 siblings: split by the first sibling's class
     (quick: a few first classes; thorough: all); 4 siblings (thorough): first two pinned to an L/R pair"""
     from vf import nameimg as N
     q = tier == "quick"
     obs = []
-    for fmt, fname, table in ((0, "akai", N.AKAI_NAMES), (1, "roland", N.ROLAND_NAMES)):
+    for fmt, fname, table in ((0, "akai", N.AKAI_NAMES), (1, "roland", N.ROLAND_NAMES)) + (((2, "cdda", N.CDDA_TITLES),) if cdda else ()):
         K = len(table)
         rng = f"i0 < {K} and i1 < {K} and i2 < {K} and i3 < {K}"
         mk = lambda nm, pre, bound: dict(name=f"{prefix}/{fname}/{nm}", module=module, func="h_image", extra_pre=[f"fmt == {fmt}", rng] + pre + list(extra), timeout=170 if q else 900,
-                                         runs=RUNS, sym="name class of every sibling", bound=bound, stubs=["independent image writers", "in-memory export"])
+                                         runs=RUNS, sym="name class of every sibling", bound=bound, stubs=["independent image writers", "export to a temporary directory, read back"])
         obs.append(mk("n=2", ["n == 2"], f"2 siblings over {K} name classes"))
         firsts = (1, 3, K - 1) if q else range(K)
         for f in firsts:
@@ -522,5 +528,5 @@ def obligations(tier, seed):
     for kind, nm in enumerate(["traversable", "akai-image", "akai-volume", "cdda-image", "roland-performance", "roland-partial"]):
         obs.append(dict(name=f"C06.levels/{nm}", module="vf.props.c06", func="h_levels", extra_pre=[f"kind == {kind}"], timeout=120, runs=RUNS,
                         sym="number of children", bound="0..3 children; recording routines", stubs=["recording routines", "stub child realisers"]))
-    obs += image_obligations("C06.image", "vf.props.c06", tier, dup=True)
+    obs += image_obligations("C06.image", "vf.props.c06", tier, dup=True, cdda=True)
     return obs
